@@ -27,6 +27,10 @@ func main() {
 		if fam == "stream.Merge" {
 			sc.SwitchBound = 4
 		}
+		if strings.Contains(s.Name, "many-inputs") || strings.Contains(s.Name, "inputs=[1 1 1 1 1 1 1 1 1 1 1 1 1 1 1 1 1") {
+			// 17 and more inputs: the point is the number, not the interleaving
+			sc.Bound, sc.ThoroughBound, sc.SwitchBound = 0, 1, 1
+		}
 		scs = append(scs, sc)
 	}
 	mcx.Main("C12", scs, []string{
